@@ -43,6 +43,7 @@ use datafusion_physical_plan::joins::utils::{
     ColumnIndex, calculate_join_output_ordering,
 };
 use datafusion_physical_plan::joins::{HashJoinExec, SortMergeJoinExec};
+use datafusion_physical_plan::limit::{GlobalLimitExec, LocalLimitExec};
 use datafusion_physical_plan::projection::{ProjectionExec, ProjectionExpr};
 use datafusion_physical_plan::repartition::RepartitionExec;
 use datafusion_physical_plan::sorts::sort::SortExec;
@@ -500,6 +501,11 @@ fn pushdown_requirement_to_children(
         || !maintains_input_order.iter().any(|o| *o)
         || plan.is::<RepartitionExec>()
         || plan.is::<FilterExec>()
+        // A limit that only skips rows (`OFFSET n` without `LIMIT`) reports no `fetch()`
+        // and so is not handled by the fetch branch above: sorting below it changes
+        // WHICH rows are skipped
+        || plan.is::<GlobalLimitExec>()
+        || plan.is::<LocalLimitExec>()
         || pushdown_would_violate_requirements(&parent_required, plan.as_ref())
     {
         // If the current plan is a leaf node or can not maintain any of the input ordering, can not pushed down requirements.
